@@ -60,6 +60,10 @@ def main() -> int:
     missed = []
     for seed in seeds:
         pid = seed.split("-")[0]
+        neutralised = json.loads((ROOT / "seeded" / seed / "meta.json").read_text()).get("neutralised_by")
+        if neutralised:
+            print(f"{seed}: skipped - no longer breaks the property on HEAD since fix {neutralised['commit']} (see meta.json)")
+            continue
         worktree = f"/tmp/vf-seed-{os.getpid()}-{seed}"
         subprocess.run(["git", "-C", "/repo", "worktree", "add", "-q", "--detach", worktree, "HEAD"], check=True)
         try:
